@@ -1,8 +1,10 @@
 // workers.go: the buffer / counting / publishing discipline of the four worker loops
 // (ipfixWorker, netflowV9Worker, netflowV5Worker, sFlowWorker in vflow/*.go), as the sequence of the
 // statements that touch shared state, in source order of the loop body:
-//   Put:<full|other>  Recv  MirrorGet  MirrorCopy[:other]  MirrorSend  Decode  Count  Marshal
-//   Publish:<copy|other>  Continue
+//
+//	Put:<full|other>  Recv  MirrorGet  MirrorCopy[:other]  MirrorSend  Decode  Count  Marshal
+//	Publish:<copy|other>  Continue
+//
 // Emitted as Gen/Workers.v; Properties/C12.v / C13.v prove that every sequence satisfies the discipline
 // the pipeline model assumes (Model/WorkerDiscipline.v).
 package main
@@ -45,68 +47,133 @@ func genWorkers() {
 				problem("%s: no main loop in %s", w.file, w.fn)
 				continue
 			}
-			ast.Inspect(loop.Body, func(n ast.Node) bool {
-				switch x := n.(type) {
-				case *ast.FuncLit:
-					return false
-				case *ast.BranchStmt:
-					if x.Tok == token.CONTINUE {
-						evs = append(evs, "Continue")
-					}
-				case *ast.SendStmt:
-					ch := exprString(x.Chan)
-					switch {
-					case strings.HasSuffix(ch, "MQCh"):
-						if strings.Join(strings.Fields(exprString(x.Value)), "") == "append([]byte{},b...)" {
-							evs = append(evs, "Publish:copy")
-						} else {
-							evs = append(evs, "Publish:other")
-						}
-					case strings.HasSuffix(ch, "MCh"):
-						evs = append(evs, "MirrorSend")
-					}
-				case *ast.AssignStmt:
-					if len(x.Lhs) >= 1 && len(x.Rhs) == 1 {
-						lhs, rhs := exprString(x.Lhs[0]), strings.Join(strings.Fields(exprString(x.Rhs[0])), "")
-						if u, ok := x.Rhs[0].(*ast.UnaryExpr); ok && u.Op == token.ARROW && strings.HasSuffix(exprString(u.X), "UDPCh") {
-							evs = append(evs, "Recv")
-							return false
-						}
-						if lhs == "mirror.body" {
-							switch {
-							case strings.Contains(rhs, w.pool+".Get()"):
-								evs = append(evs, "MirrorGet")
-								return false
-							case rhs == "append(mirror.body[:0],msg.body...)":
-								evs = append(evs, "MirrorCopy")
-							default:
-								evs = append(evs, "MirrorCopy:other")
-							}
-						}
-					}
-				case *ast.CallExpr:
-					fn := exprString(x.Fun)
-					switch {
-					case strings.HasSuffix(fn, "Buffer.Put"):
-						full := false
-						if len(x.Args) == 1 {
-							full = strings.Join(strings.Fields(exprString(x.Args[0])), "") == "msg.body[:opts."+w.size+"]" && fn == w.pool+".Put"
-						}
-						if full {
-							evs = append(evs, "Put:full")
-						} else {
-							evs = append(evs, "Put:other")
-						}
-					case strings.HasSuffix(fn, ".Decode") || strings.HasSuffix(fn, ".SFDecode"):
-						evs = append(evs, "Decode")
-					case strings.HasSuffix(fn, ".JSONMarshal") || fn == "json.Marshal":
-						evs = append(evs, "Marshal")
-					case fn == "atomic.AddUint64" && len(x.Args) == 2 && strings.HasSuffix(exprString(x.Args[0]), "stats.DecodedCount") && exprString(x.Args[1]) == "1":
-						evs = append(evs, "Count")
+			// helpers of the same file that the loop calls as statements are read in place (a loop body moved into a method, a block
+			// extracted into a function); a `return` of a helper that is the LAST statement of the loop body ends the iteration
+			helper := func(name string) *ast.FuncDecl {
+				for _, d2 := range f.Decls {
+					if h, ok := d2.(*ast.FuncDecl); ok && h.Body != nil && h.Name.Name == name && h.Name.Name != w.fn {
+						return h
 					}
 				}
-				return true
-			})
+				return nil
+			}
+			mirrorBuf := map[string]bool{"mirror.body": true}
+			var walk func(root ast.Node, retIsContinue bool, depth int)
+			walk = func(root ast.Node, retIsContinue bool, depth int) {
+				ast.Inspect(root, func(n ast.Node) bool {
+					switch x := n.(type) {
+					case *ast.FuncLit:
+						return false
+					case *ast.ReturnStmt:
+						if retIsContinue {
+							evs = append(evs, "Continue")
+						}
+					case *ast.ExprStmt:
+						if c, ok := x.X.(*ast.CallExpr); ok && depth < 3 {
+							name := ""
+							switch fn := c.Fun.(type) {
+							case *ast.Ident:
+								name = fn.Name
+							case *ast.SelectorExpr:
+								if id, ok := fn.X.(*ast.Ident); ok && fd.Recv != nil && len(fd.Recv.List[0].Names) == 1 && id.Name == fd.Recv.List[0].Names[0].Name {
+									name = fn.Sel.Name
+								}
+							}
+							if h := helper(name); h != nil {
+								last := root == ast.Node(loop.Body) && len(loop.Body.List) > 0 && loop.Body.List[len(loop.Body.List)-1] == ast.Stmt(x)
+								walk(h.Body, last, depth+1)
+								return false
+							}
+						}
+					case *ast.BranchStmt:
+						if x.Tok == token.CONTINUE {
+							evs = append(evs, "Continue")
+						}
+					case *ast.SendStmt:
+						ch := exprString(x.Chan)
+						switch {
+						case strings.HasSuffix(ch, "MQCh"):
+							if strings.Join(strings.Fields(exprString(x.Value)), "") == "append([]byte{},b...)" {
+								evs = append(evs, "Publish:copy")
+							} else {
+								evs = append(evs, "Publish:other")
+							}
+						case strings.HasSuffix(ch, "MCh"):
+							evs = append(evs, "MirrorSend")
+						}
+					case *ast.AssignStmt:
+						if len(x.Lhs) >= 1 && len(x.Rhs) == 1 {
+							lhs, rhs := exprString(x.Lhs[0]), strings.Join(strings.Fields(exprString(x.Rhs[0])), "")
+							if u, ok := x.Rhs[0].(*ast.UnaryExpr); ok && u.Op == token.ARROW && strings.HasSuffix(exprString(u.X), "UDPCh") {
+								evs = append(evs, "Recv")
+								return false
+							}
+							// the buffer for the mirror copy comes from the pool (into mirror.body or into a local) ...
+							if strings.Contains(rhs, w.pool+".Get()") {
+								evs = append(evs, "MirrorGet")
+								mirrorBuf[lhs] = true
+								return false
+							}
+							// ... and the datagram is copied into it
+							if lhs == "mirror.body" {
+								good := false
+								for v := range mirrorBuf {
+									if rhs == "append("+v+"[:0],msg.body...)" {
+										good = true
+									}
+								}
+								if good {
+									evs = append(evs, "MirrorCopy")
+								} else {
+									evs = append(evs, "MirrorCopy:other")
+								}
+							}
+						}
+					case *ast.CompositeLit:
+						// mirror := <Proto>UDPMsg{raddr: ..., body: append(buf[:0], msg.body...)}
+						if strings.HasSuffix(exprString(x.Type), "UDPMsg") {
+							for _, el := range x.Elts {
+								if kv, ok := el.(*ast.KeyValueExpr); ok && exprString(kv.Key) == "body" {
+									v := strings.Join(strings.Fields(exprString(kv.Value)), "")
+									good := false
+									for b := range mirrorBuf {
+										if v == "append("+b+"[:0],msg.body...)" {
+											good = true
+										}
+									}
+									if good {
+										evs = append(evs, "MirrorCopy")
+									} else {
+										evs = append(evs, "MirrorCopy:other")
+									}
+								}
+							}
+						}
+					case *ast.CallExpr:
+						fn := exprString(x.Fun)
+						switch {
+						case strings.HasSuffix(fn, "Buffer.Put"):
+							full := false
+							if len(x.Args) == 1 {
+								full = strings.Join(strings.Fields(exprString(x.Args[0])), "") == "msg.body[:opts."+w.size+"]" && fn == w.pool+".Put"
+							}
+							if full {
+								evs = append(evs, "Put:full")
+							} else {
+								evs = append(evs, "Put:other")
+							}
+						case strings.HasSuffix(fn, ".Decode") || strings.HasSuffix(fn, ".SFDecode"):
+							evs = append(evs, "Decode")
+						case strings.HasSuffix(fn, ".JSONMarshal") || fn == "json.Marshal":
+							evs = append(evs, "Marshal")
+						case fn == "atomic.AddUint64" && len(x.Args) == 2 && strings.HasSuffix(exprString(x.Args[0]), "stats.DecodedCount") && exprString(x.Args[1]) == "1":
+							evs = append(evs, "Count")
+						}
+					}
+					return true
+				})
+			}
+			walk(loop.Body, false, 0)
 		}
 		var q []string
 		for _, e := range evs {
